@@ -37,6 +37,7 @@ class Session:
         self.values = values if values is not None else {}
         self.complex_ = complex_
         self.rng = rng or random.Random(0)
+        self.any_complex = False
         self.obl = []  # sym: (name, formula) ; num: (name, ok, lhs, rhs)
         self.canaries = []
         self.structural = []  # (name, detail) structural violations
@@ -54,6 +55,8 @@ class Session:
 
     def scalar(self, name, complex_=None):
         cx = self.complex_ if complex_ is None else complex_
+        if cx:
+            self.any_complex = True
         if self.mode == "sym":
             self.varnames.extend([name + ".re", name + ".im"] if cx else [name])
             return zt.var(name, cx)
@@ -119,7 +122,7 @@ class Session:
     def dtype(self):
         if self.mode == "sym":
             return object
-        return np.complex128 if self.complex_ else np.float64
+        return np.complex128 if (self.complex_ or self.any_complex) else np.float64
 
 
 def _tonum(v):
